@@ -112,6 +112,8 @@ class Tr:
         for p, (e, t) in spec.pyparams.items():
             self.env[p] = (e, t)
         self.notes = []
+        self.buffers = {}       # local 1-d scratch arrays `b = np.empty(n, ..)`, filled in index order by a loop: lists
+        self.loops = []         # enclosing `for v in range(n)` loops: (v, source of n)
         self.uses_order = False
         self.uses_eq = False
         self._range_type = N
@@ -429,6 +431,8 @@ class Tr:
             elif isinstance(t, ast.Subscript) and isinstance(t.value, ast.Name):
                 if self.s.cell and t.value.id in self.s.cell["arrays"]:
                     add("cell_" + t.value.id)
+                elif t.value.id in self.buffers:
+                    add(t.value.id)
                 else:
                     self.err(t, "store into an array")
             else:
@@ -520,6 +524,20 @@ class Tr:
                     names.append(x.id)
                     self.env[x.id] = (x.id, xt)
                 return pad + f"let ({', '.join(names)}) := {s}\n" + self.block(rest, ind, k_cont, k_ret)
+            if isinstance(t, ast.Subscript) and isinstance(t.value, ast.Name) and t.value.id in self.buffers:
+                # `buf[v] = x` inside `for v in range(len(buf))`: iteration v appends element v
+                b = t.value.id
+                if not self.loops or ast.unparse(t.slice) != self.loops[-1][0] or self.loops[-1][1] != self.buffers[b][1]:
+                    self.err(st, "a scratch array is only filled at the index of the innermost loop over its whole length")
+                x, tx_ = self.expr(st.value)
+                return pad + f"let {b} := {b} ++ [{self.coerce(x, tx_, self.buffers[b][0], st)}]\n" + self.block(rest, ind, k_cont, k_ret)
+            if isinstance(t, ast.Name) and isinstance(st.value, ast.Call) and ast.unparse(st.value.func) in ("np.empty", "numpy.empty") and st.value.args:
+                want_b = self.s.locals.get(t.id)
+                if not (isinstance(want_b, tuple) and want_b[0] == "L"):
+                    self.err(st, "element type of a scratch array must be given in FuncSpec.locals")
+                self.buffers[t.id] = (want_b[1], ast.unparse(st.value.args[0]))
+                self.env[t.id] = (t.id, want_b)
+                return pad + f"let {t.id} : {lean_type(want_b)} := []\n" + self.block(rest, ind, k_cont, k_ret)
             name = self.target_name(t)
             if ast.unparse(st.value).startswith("(slice(None),) * "):
                 k, tk = self.expr(st.value.right)
@@ -716,7 +734,9 @@ class Tr:
         def no_return(_):
             self.err(st, "return inside a loop")
 
+        self.loops.append((v, ast.unparse(st.iter.args[0]) if len(st.iter.args) == 1 else None))
         body = self.block(list(st.body), ind + 6, lambda: self.state_tuple(state), no_return)
+        self.loops.pop()
         self.env = env0
         self.bind_state(state, types)
         return (pad + f"let {self.pattern(state)} := {rng}.foldl (fun {self.pattern(state)} {v} =>\n{body}) {init}\n"
@@ -846,12 +866,15 @@ def translate(specs, src_root: Path, header: str):
                 tr.uses_order = tr.uses_order or sp2._uses_order
                 tr.uses_eq = tr.uses_eq or sp2._uses_eq
         sp._uses_order, sp._uses_eq = tr.uses_order, tr.uses_eq
-        uses_d = " d." in body or "(d." in body
+        uses_d = bool(_re.search(r"(?<![A-Za-z0-9_.])d(?![A-Za-z0-9_])", body))
         sp._uses_d = uses_d
         binders = "(o : Ops K)" + (" (d : Arim.Das.Data K D)" if uses_d else "")
         params = " ".join(f"({n} : {lean_type(t)})" for n, t in sp.params)
         doc = f"/-- generated from `{sp.file}`, function `{sp.name}` (line {fn.lineno}){': ' + sp.doc if sp.doc else ''} -/"
-        tyvars = "{K : Type}" + (" {D : Type}" if uses_d else "")
+        def mentions_d(t):
+            return t == D or (isinstance(t, tuple) and any(mentions_d(x) for x in t if not isinstance(x, int)))
+        has_d_type = uses_d or any(mentions_d(t) for _, t in sp.params) or mentions_d(sp.ret)
+        tyvars = "{K : Type}" + (" {D : Type}" if has_d_type else "")
         out.append(doc)
         rt = "Option (" + ret_type(sp.ret) + ")" if sp.raises else ret_type(sp.ret)
         order = (" [LT K] [DecidableLT K] [LE K] [DecidableLE K]" if tr.uses_order else "") + (" [DecidableEq K]" if tr.uses_eq else "")
